@@ -91,15 +91,15 @@ type Event struct {
 }
 
 type batch struct {
-	mu      sync.Mutex
-	wg      sync.WaitGroup
-	tests   map[string]*recT
-	events  []Event
-	root    string // the private GOTMPDIR
-	pids    []int
-	nextK   map[string]int
-	canary  bool
-	rootDir string // the go-test-script* dir, discovered
+	mu     sync.Mutex
+	wg     sync.WaitGroup
+	tests  map[string]*recT
+	events []Event
+	root   string // the private GOTMPDIR
+	pids   []int
+	nextK  map[string]int
+	canary bool
+	leaked []string // host variables visible to a script or its children with the host's value
 }
 
 func (b *batch) event(e Event) {
@@ -109,6 +109,20 @@ func (b *batch) event(e Event) {
 }
 
 func scriptOf(ts *testscript.TestScript) string { return ts.Name() }
+
+// host variables a script may legitimately see with the host's value
+var passThrough = map[string]bool{"PATH": true, "GOCOVERDIR": true, "GORACE": true}
+
+func (b *batch) leak(name string) {
+	b.mu.Lock()
+	defer b.mu.Unlock()
+	for _, n := range b.leaked {
+		if n == name {
+			return
+		}
+	}
+	b.leaked = append(b.leaked, name)
+}
 
 func (b *batch) cmds() map[string]func(ts *testscript.TestScript, neg bool, args []string) {
 	return map[string]func(ts *testscript.TestScript, neg bool, args []string){
@@ -130,6 +144,12 @@ func (b *batch) cmds() map[string]func(ts *testscript.TestScript, neg bool, args
 				b.canary = true
 				b.mu.Unlock()
 			}
+			// any host variable (other than the documented pass-through) visible with the host's value is a leak
+			for _, kv := range os.Environ() {
+				if i := strings.Index(kv, "="); i > 0 && !passThrough[kv[:i]] && kv[i+1:] != "" && ts.Getenv(kv[:i]) == kv[i+1:] {
+					b.leak(kv[:i])
+				}
+			}
 			b.event(Event{Ev: "obs", S: scriptOf(ts), V: fmt.Sprintf("cwd=%s V=%s files=%s", cwd, ts.Getenv("V"), strings.Join(files, ","))})
 		},
 		"mark": func(ts *testscript.TestScript, neg bool, args []string) {
@@ -142,6 +162,17 @@ func (b *batch) cmds() map[string]func(ts *testscript.TestScript, neg bool, args
 				b.mu.Lock()
 				b.canary = true
 				b.mu.Unlock()
+			}
+			host := map[string]string{}
+			for _, kv := range os.Environ() {
+				if i := strings.Index(kv, "="); i > 0 {
+					host[kv[:i]] = kv[i+1:]
+				}
+			}
+			for _, l := range strings.Split(out, "\n") {
+				if i := strings.Index(l, "="); i > 0 && !passThrough[l[:i]] && l[i+1:] != "" && host[l[:i]] == l[i+1:] {
+					b.leak(l[:i])
+				}
 			}
 			var vars []string
 			for _, l := range strings.Split(out, "\n") {
@@ -289,6 +320,7 @@ type RunRec struct {
 	Live     []int               `json:"live"` // pids still alive
 	Host     []string            `json:"host"` // changes of the host process state
 	Canary   bool                `json:"canary"`
+	Leaked   []string            `json:"leaked"`
 	RootLast bool                `json:"rootlast"` // the shared root was removed after every script's end
 	Count    int                 `json:"count"`
 	Detail   string              `json:"detail,omitempty"`
@@ -361,7 +393,7 @@ func runBatch(mode string, cfg Config, strat vsched.Strategy) *RunRec {
 	vos.SetInterceptor(nil)
 	rec := &RunRec{Mode: mode, Scripts: cfg.Scripts, Retain: cfg.Retain, Events: b.events, End: out.Status, Obs: map[string][]string{},
 		Verdict: map[string]string{}, Reg: map[string][]int{}, Ran: map[string][]int{}, Left: []string{}, Live: []int{}, Host: []string{},
-		Canary: b.canary, Count: 1, Solo: map[string][]string{}, SoloV: map[string]string{}}
+		Canary: b.canary, Leaked: append([]string{}, b.leaked...), Count: 1, Solo: map[string][]string{}, SoloV: map[string]string{}}
 	for _, sc := range cfg.Scripts {
 		rec.Obs[sc.Name] = []string{}
 		rec.Reg[sc.Name] = []int{}
@@ -468,7 +500,7 @@ func (c *collector) add(r *RunRec) {
 	c.runs++
 	evs := make([]Event, len(r.Events))
 	copy(evs, r.Events)
-	b, _ := json.Marshal([]interface{}{r.Scripts, r.Retain, evs, r.End, r.Obs, r.Verdict, r.Ran, r.Left, len(r.Live), r.Host, r.Canary, r.RootLast})
+	b, _ := json.Marshal([]interface{}{r.Scripts, r.Retain, evs, r.End, r.Obs, r.Verdict, r.Ran, r.Left, len(r.Live), r.Host, r.Canary, r.Leaked, r.RootLast})
 	k := string(b)
 	if t, ok := c.seen[k]; ok {
 		t.Count++
